@@ -383,10 +383,7 @@ def run(chk):
     sc, dc, cc = _load()
     from symex import loader
 
-    chk.functions = loader.describe([dc.DiskChopper.__post_init__, dc._check_edges, dc._check_edge_overlap, dc.DiskChopper.time_offset_open,
-                                     dc.DiskChopper.time_offset_close, dc.DiskChopper.time_offset_angle_at_beam, dc.DiskChopper._apply_angle_repetitions,
-                                     dc.DiskChopper._source_phase_factor, dc._is_int_or_inverse_int, dc.DiskChopper.open_duration,
-                                     cc.Chopper.from_disk_chopper])
+    chk.functions = loader.describe_exprs(['dc.DiskChopper.__post_init__', 'dc._check_edges', 'dc._check_edge_overlap', 'dc.DiskChopper.time_offset_open', 'dc.DiskChopper.time_offset_close', 'dc.DiskChopper.time_offset_angle_at_beam', 'dc.DiskChopper._apply_angle_repetitions', 'dc.DiskChopper._source_phase_factor', 'dc._is_int_or_inverse_int', 'dc.DiskChopper.open_duration', 'cc.Chopper.from_disk_chopper'], {**globals(), **locals()})
     ratios = [1, 2, 3, Fraction(1, 2), Fraction(1, 3)] if chk.tier == 'quick' else [1, 2, 3, 4, 5, 8, Fraction(1, 2), Fraction(1, 3), Fraction(1, 4)]
     slits = [1, 2] if chk.tier == 'quick' else [1, 2, 3]
     jobs = [(r, s, n, 'rad', 'Hz') for r in ratios for s in (-1, 1) for n in slits]
